@@ -1383,6 +1383,7 @@ func runC02(args []string) error {
 	mismatchCases := 0
 	sampleRng := newRng(*seed ^ 0xc02)
 	sampled := map[string]bool{}
+	listed := map[string]int{}
 	// how many evaluations are sampled into Coq per run (besides every mismatch)
 	totalInt := 0
 	for _, s := range g.sites {
@@ -1467,7 +1468,9 @@ func runC02(args []string) error {
 						region = ""
 					}
 					sm.count("mismatch:" + region)
-					if len(sm.RefMismatches) < c02ListCap {
+					listed[region]++
+					// every unexplained mismatch is listed (up to the cap); each known region has its own, smaller cap
+					if (region == "" && listed[region] <= c02ListCap) || (region != "" && listed[region] <= c02ListCap/2) {
 						d := evalDesc(s, i)
 						sm.CaseIndex[fmt.Sprint(id)] = d
 						sm.RefMismatches = append(sm.RefMismatches, refMismatch{ID: id, Region: region, Input: d, Impl: impl, Ref: exp, Note: note})
